@@ -98,7 +98,7 @@ class Problem:
         )
         self.dom_indices_lst.append(dom_index)
         self.dom_offsets_lst.append(dom_offset)
-        self.shr_domain_nb = len(self.dom_indices_lst)
+        self.shr_domain_nb = len(self.shr_domains_lst)
         return insertion_idx
 
     def add_variables(
@@ -128,7 +128,7 @@ class Problem:
         )
         self.dom_indices_lst.extend(dom_indices_list)
         self.dom_offsets_lst.extend(dom_offsets_list)
-        self.shr_domain_nb = len(self.dom_indices_lst)
+        self.shr_domain_nb = len(self.shr_domains_lst)
         return insertion_idx
 
     def add_propagator(self, propagator: Tuple[List[int], int, List[int]]) -> None:
